@@ -7,7 +7,14 @@ TRUSTED = ['CPython generator protocol (code after a yield runs at the next next
 
 
 def run(tier):
-    return model_b.run_b('C08', tier, want_prof=False)
+    from .. import model_e, common
+    res = model_b.run_b('C08', tier, want_prof=False)
+    # "at most one ... prefetch buffer ahead": through the Dataset API, with a stalling consumer
+    fails, runs = model_e.dataset_level_readahead(common.import_impl(), common.rng_for('C08ra'), tier)
+    for msg in fails[:5]:
+        res['failures'].append(dict(kind='program', summary=msg, config=dict(kind='dataset_readahead')))
+    res['coverage']['readahead_runs_through_dataset_api'] = runs
+    return res
 
 
 def replay(payload):
